@@ -243,7 +243,7 @@ class Term(ItemSequenceT[T]):
             pass
         it = _iter_normalized(self, self.normalize_elem)
         items = self._reduce_items(it, keep_item_order=False)
-        if items == self._items:  # self is already normalized
+        if _same_items(items, self._items):  # self is already normalized
             self._normalized = self
             return self
         term = self.__class__(items, reduce_items=False)
@@ -408,6 +408,18 @@ class Term(ItemSequenceT[T]):
 
 
 # helper functions
+
+def _same_items(items1: ItemTupleT[T], items2: ItemTupleT[T]) -> bool:
+    # Non-numeric elements must be identical, not only equal: an element can
+    # be equal to the element it is derived from (same scale), but has to be
+    # replaced by it in a normalized term.
+    return len(items1) == len(items2) and \
+        all(exp1 == exp2 and
+            (elem1 is elem2 or
+             (isinstance(elem1, Rational) and isinstance(elem2, Rational)
+              and elem1 == elem2))
+            for (elem1, exp1), (elem2, exp2) in zip(items1, items2))
+
 
 def _filter_items(items: ItemIterableT[T]) \
         -> Generator[ItemT[T], None, None]:
